@@ -4,6 +4,11 @@ import json, os
 ROOT = os.path.dirname(os.path.dirname(os.path.abspath(__file__)))
 props = [json.loads(l) for l in open(ROOT + "/properties.jsonl")]
 CLAIMED = {
+ "C19": dict(
+   technique="Lean 4 proof by mutual structural induction (traversals, map_expr_dag, DAGTraverser memoisation) on a hand model tied by correspondence on random DAGs; kernel `decide` over dispatch tables regenerated from the live classes",
+   text="For every labelled tree (any size/sharing) and every handler: unique post traversal yields each distinct subexpression exactly once with operands before users (C19_post_exactly_once, C19_post_operands_first); unique pre traversal exactly once (C19_pre_exactly_once, worklist invariant + fuel sufficiency); cut-off variant (C19_cutoff_post); map_expr_dag = recursive application to the tree with and without cut-offs (C19_map_dag_eq_tree); DAGTraverser memoisation keyed on (node, kwargs) is sound for any shared cache (C19_dag_traverser_memo_sound). Dispatch: for all 26 MultiFunction/Transformer subclasses x 167 types and 15 DAGTraverser subclasses, the table the class computed is the nearest-ancestor table (decide over Gen/Dispatch.lean, regenerated each run). The models are run against the real traversal/map/DAGTraverser code on random DAGs with shared subexpressions at different depths.",
+   note="Trusted: Lean kernel; translator dispatch.py; abstraction of expressions to labelled trees with structural equality for ==/hash (C13's subject); iterative loops modelled by structural recursion / fuelled worklist, tied by correspondence only.",
+   design="5 C19"),
  "C20": dict(
    technique="Lean 4 proof by invariant induction over arbitrary operation histories of a state-machine model of the handler-table cache; correspondence on random histories run in fresh processes",
    text="State machine (register type / instantiate class / apply) for MultiFunction and Transformer with the per-class table cache. Invariant: every cached table is the correct table for the types present when it was built; proved preserved by every step, hence for histories of any length (C20_total: every apply dispatches to the nearest-ancestor handler; C20_history_independent; C20_cache_current). The executable model is compared with the real classes on random histories, each in a fresh forked process that really defines new Expr subclasses (4 kinds), 8 harness algorithm classes with inheritance, plus real passes and plain-function map_expr_dag on expressions containing new types. The stale-cache defect found on the pinned tree was repaired by a fix: commit; C20_old_cache_counterexample keeps the failing 3-step history.",
